@@ -1,7 +1,7 @@
 
 // ===== folo-verif overlay (add-only; compiled only under `cargo kani`) =====
 #[cfg(kani)]
-pub(crate) mod verif_kani {
+pub(crate) mod verif_kani_pool {
     use super::*;
     use crate::opaque::slab::verif_kani::{
         any_wf_probe_slab, any_wf_slab, base_of, expected_object_addr, occupied, slab_wf, Probe, CHECK_AT_DROP, DOUBLE_DROP, DROPPED_IDS,
